@@ -797,6 +797,11 @@ static srtp_err_status_t srtp_stream_clone(
         return srtp_err_status_alloc_fail;
     }
 
+    /* set before the keys are copied: srtp_stream_dealloc wipes mki_size
+     * octets of each MKI if cloning fails half way */
+    str->use_mki = stream_template->use_mki;
+    str->mki_size = stream_template->mki_size;
+
     for (size_t i = 0; i < stream_template->num_master_keys; i++) {
         session_keys = &str->session_keys[i];
         template_session_keys = &stream_template->session_keys[i];
@@ -837,9 +842,6 @@ static srtp_err_status_t srtp_stream_clone(
             return status;
         }
     }
-
-    str->use_mki = stream_template->use_mki;
-    str->mki_size = stream_template->mki_size;
 
     /* initialize replay databases */
     status = srtp_rdbx_init(
